@@ -29,6 +29,7 @@
 #define SLE_Q0 __CPROVER_old(g_sl_snk_pos)
 #define SLE_SOFN(ctx) (SL_SOF((ctx)->flags) ? (size_t)1 : (size_t)0)
 #define SLE_C ((size_t)(g_sl_src_pos - SLE_P0))
+#define SLE_NNEG0 __CPROVER_old(g_sl_src_nneg)
 #define SLE_R SL_REL(g_sl_snk_pos, SLE_Q0)
 #define SLE_O SL_REL(g_sl_obs, SLE_Q0)
 #define SLE_PAY(k) (g_sl_src[SL_CLI(SLE_P0 + (k), g_sl_src_len)])
